@@ -27,6 +27,13 @@ const (
 	kPoolPut
 )
 
+const (
+	opWgAdd = 1 + iota
+	opWgDone
+	opRLock
+	opRUnlock
+)
+
 type ident struct{ id int }
 
 func (i *ident) get() int {
@@ -148,6 +155,7 @@ func (m *RWMutex) RLock() {
 		return
 	}
 	m.fresh()
+	vsched.SetOp(opRLock, func(o int) bool { return o == opRLock || o == opRUnlock })
 	vsched.Block("RWMutex.RLock", kRLock, m.get(), func() bool { return !m.writer })
 	m.readers++
 	vsched.HAcq(m.rel)
@@ -159,6 +167,7 @@ func (m *RWMutex) RUnlock() {
 		return
 	}
 	m.fresh()
+	vsched.SetOp(opRUnlock, func(o int) bool { return o == opRLock || o == opRUnlock })
 	vsched.Yield("RWMutex.RUnlock", kRUnlock, m.get())
 	if m.readers <= 0 {
 		panic("sync: RUnlock of unlocked RWMutex")
@@ -179,6 +188,7 @@ func (r *rlocker) Unlock() { (*RWMutex)(r).RUnlock() }
 type WaitGroup struct {
 	real    realsync.WaitGroup
 	rel     uint64 // commutative accumulation of the hashes published by Add/Done
+	relGen  int    // number of times the counter reached zero with waiters present
 	n       int
 	waiters int
 	gen     uint64
@@ -190,6 +200,7 @@ func (w *WaitGroup) fresh() {
 		w.gen = g
 		w.n = 0
 		w.waiters = 0
+		w.relGen = 0
 		w.rel = 0
 		w.id = 0
 	}
@@ -201,14 +212,28 @@ func (w *WaitGroup) Add(delta int) {
 		return
 	}
 	w.fresh()
+	// dependence refinement: positive Adds commute, Dones commute; Add(+) and Done commute when the
+	// counter cannot reach zero or go negative in either order (or nobody waits and it stays >= 0)
+	mixed := func() bool { return w.n >= 2 || (w.n >= 1 && w.waiters == 0) }
+	if delta > 0 {
+		vsched.SetOp(opWgAdd, func(o int) bool { return o == opWgAdd || (o == opWgDone && mixed()) })
+	} else {
+		vsched.SetOp(opWgDone, func(o int) bool { return o == opWgDone || (o == opWgAdd && mixed()) })
+	}
 	vsched.Yield("WaitGroup.Add", kWgAdd, w.get())
+	if w.waiters > 0 && delta > 0 && w.n == 0 {
+		panic("sync: WaitGroup misuse: Add called concurrently with Wait")
+	}
 	w.n += delta
 	w.rel += vsched.HRel() * uint64(2*delta+1001)
 	if w.n < 0 {
 		panic("sync: negative WaitGroup counter")
 	}
-	if w.waiters > 0 && delta > 0 && w.n == delta {
-		panic("sync: WaitGroup misuse: Add called concurrently with Wait")
+	if w.n == 0 && w.waiters > 0 {
+		// as in the real WaitGroup the goroutine that brings the counter to zero releases every
+		// current waiter irrevocably (a later Add does not hold them back)
+		w.relGen++
+		w.waiters = 0
 	}
 }
 
@@ -220,9 +245,11 @@ func (w *WaitGroup) Wait() {
 		return
 	}
 	w.fresh()
-	w.waiters++
-	vsched.Block("WaitGroup.Wait", kWgWait, w.get(), func() bool { return w.n == 0 })
-	w.waiters--
+	if w.n > 0 {
+		w.waiters++
+	}
+	my := w.relGen
+	vsched.Block("WaitGroup.Wait", kWgWait, w.get(), func() bool { return w.n == 0 || w.relGen > my })
 	vsched.HAcq(w.rel)
 }
 
